@@ -177,7 +177,15 @@ def check(prog, rep):
     for fi, call, w in backend_calls(prog):
         if not w.endswith(".linprog"):
             continue
+        from .common import helper_closure
         checks = [c for c in calls(fi.node) if dotted(c.func) == "is_linear" and c.lineno < call.lineno]
+        # also in helpers called before the backend call (module-level, statement position)
+        for h in helper_closure(prog, fi, depth=1):
+            if h is fi or h.parent is not None:
+                continue
+            sites = [c for c in calls(fi.node) if dotted(c.func) == h.name and c.lineno < call.lineno]
+            if sites:
+                checks += [c for c in calls(h.node) if dotted(c.func) == "is_linear"]
         objs = any("objective" in src(c.args[0]) for c in checks if c.args)
         cons = any(".expr" in src(c.args[0]) for c in checks if c.args)
         rep.ob("R08.1", fi.name, objs and cons, "re-validates linearity of the objective and of every constraint before extraction" if objs and cons else "does not re-validate linearity of " + ("the objective" if not objs else "the constraints") + " before extracting matrices", loc=fi.loc, detail="revalidates")
@@ -285,7 +293,14 @@ def _wiring(prog, rep, fi, call):
             if r is not None:
                 return r
         return v
+    opaque = False
+    if star and isinstance(star[0], ast.Name):
+        # the keyword dictionary (or part of it) is produced by a call this rule does not look into
+        opaque = any(isinstance(v, ast.Call) and not isinstance(v, ast.Dict) and dotted(v.func) not in ("dict",) for v in assigns.get(star[0].id, []) if isinstance(v, ast.AST))
     for field in ("A_ub", "b_ub", "A_eq", "b_eq", "bounds"):
+        if field not in kws and opaque:
+            rep.undecided(f"{fi.name}: linprog keywords are built by a helper call; whether {field} is passed is not decided on this view")
+            continue
         if field not in kws:
             rep.ob("R08.2", f"{fi.name}:linprog({field}=)", False, f"linprog never receives {field}: that part of the model is dropped", loc=f"{fi.module.rel}:{call.lineno}", detail="fed-from-same-field")
             continue
@@ -306,6 +321,9 @@ def _wiring(prog, rep, fi, call):
             gb = sorted(src(t) for t, p in kws[b][0])
             rep.ob("R08.2", f"{fi.name}:linprog({a},{b})", ga == gb, "matrix and right-hand side are passed together under one guard" if ga == gb else f"{a} and {b} are passed under different guards ({ga} vs {gb})", loc=f"{fi.module.rel}:{call.lineno}", detail="pair-together")
     # c
+    if "c" not in kws and opaque:
+        rep.undecided(f"{fi.name}: linprog keywords are built by a helper call; the cost vector is not decided on this view")
+        return
     if "c" not in kws:
         raise AnalysisError(f"{fi.name}: linprog cost vector not found")
     cv = kws["c"][1]
